@@ -297,6 +297,31 @@ package keeper
 //@   ensures #c10-conversion: a1.1 && a2.1 ==> result2 == nil && result1 == convAmt(amt1, rate1, a1.0.Decimals, rate2, a2.0.Decimals)
 //@   ensures #c10-conversion-missing-asset: !(a1.1 && a2.1) ==> result2 != nil && result1 == 0
 
+
+// ---- MsgCreateStableMint (C02, C01): the stable-mint vault mints the value-converted amount (GetAmountOfOtherToken at rate 1:1, proved equal to its formula separately), the user receives exactly
+// the minted amount minus the draw-down fee, the fee goes to the collector, nothing of the mint stays in the vault account,
+// the collateral paid in is held in vault custody.
+
+//@ func (k msgServer) MsgCreateStableMint
+//@   property C02, C01
+//@   let ep = k.asset.GetPairsVault(ctx, msg.ExtendedPairVaultId).0
+//@   let pr = k.asset.GetPair(ctx, ep.PairId).0
+//@   let ain = k.asset.GetAsset(ctx, pr.AssetIn).0
+//@   let aout = k.asset.GetAsset(ctx, pr.AssetOut).0
+//@   let out = k.GetAmountOfOtherToken(ctx, ain.Id, ONE, msg.Amount, aout.Id, ONE).1
+//@   let fee = trunc(decMul(dec(out), ep.DrawDownFee))
+//@   let vm = modaddr("vaultV1")
+//@   let cm = modaddr("collectorV1")
+//@   let u = addr(msg.From)
+//@   requires #valid-msg: msg.Amount > 0 && (validaddr(msg.From) ==> u != vm && u != cm)
+//@   requires #config: ain.Denom != aout.Denom && ain.Decimals > 0 && aout.Decimals > 0 && ep.DrawDownFee >= 0 && ep.DrawDownFee <= ONE
+//@   requires #fee-book: forall a, b :: ite(K("collector").GetNetFeeCollectedData(ctx, a, b).1, K("collector").GetNetFeeCollectedData(ctx, a, b).0.NetFeesCollected, 0) >= 0
+//@   ensures [C02] #c02-mint-is-converted-amount: ok ==> supply(aout.Denom) == old(supply(aout.Denom)) + out
+//@   ensures [C02] #c02-user-gets-mint-minus-fee: ok ==> bal(u, aout.Denom) == old(bal(u, aout.Denom)) + out - fee
+//@   ensures [C02] #c02-fee-to-collector: ok ==> bal(cm, aout.Denom) == old(bal(cm, aout.Denom)) + fee
+//@   ensures [C02] #c02-nothing-of-the-mint-stays: ok ==> bal(vm, aout.Denom) == old(bal(vm, aout.Denom))
+//@   ensures [C01] #c01-collateral-in-custody: ok ==> bal(vm, ain.Denom) == old(bal(vm, ain.Denom)) + msg.Amount
+
 //@ func (k msgServer) MsgDepositAndDraw
 //@   property C12, C14
 //@   let v0 = k.GetVault(ctx, msg.UserVaultId).0
